@@ -112,6 +112,9 @@ func (p *warcfieldsParser) Parse(r *bufio.Reader, validation *Validation, pos *p
 						return nil, newSyntaxError("missing newline", pos)
 					}
 				}
+			} else if _, ok := err.(*SyntaxError); !ok {
+				// read error from the underlying reader
+				return nil, err
 			} else {
 				switch p.Options.errSyntax {
 				case ErrIgnore:
